@@ -168,6 +168,81 @@ def rule_table(facts):
     return r
 
 
+def explicit_rejections(b):
+    """Blocks of body b that build an error value themselves (not propagated with `?`): [(block, variant name)]."""
+    out = []
+    for blk in b.blocks:
+        if blk.cleanup:
+            continue
+        for s in blk.stmts:
+            if s.k == "assign" and s.rv.k == "aggregate" and s.rv.agg == "adt" and s.rv.adt_name.endswith("error::Error"):
+                out.append((blk.idx, s.rv.variant_name or ""))
+    return out
+
+
+def rule_rejections(facts):
+    """Exactness includes acceptance: the chunk parser may refuse a chunk only for the reasons the format gives
+    (control byte below 0x80 where an LZMA chunk is expected, properties byte >= 225, lc + lp > 4) - read errors aside."""
+    r = report.RuleResult("C02.R6", "the LZMA2 chunk parser rejects only what the format rejects")
+    bodies = [pat.chunk_loop_body(facts), pat.body_of(facts, "Lzma2Decoder::parse_lzma"), pat.body_of(facts, "Lzma2Decoder::parse_uncompressed")]
+    r.need("chunk loop, parse_lzma, parse_uncompressed", None not in bodies)
+    n = 0
+    # classification helpers called by the parser (e.g. a shared properties-byte parser) belong to it
+    extra = []
+    for b in bodies:
+        if b is None:
+            continue
+        for blk in b.calls():
+            cal = blk.term.callee
+            if cal is None or not cal.target().local:
+                continue
+            hb = facts.by_def.get(cal.target().defk)
+            if hb is None or hb in bodies or hb in extra or hb.locals[0].ty.name != "std::result::Result":
+                continue
+            if any(a.ty.k == "ref" and a.ty.mut for a in blk.term.args):
+                continue
+            if explicit_rejections(hb):
+                extra.append(hb)
+    for b in bodies + extra:
+        if b is None:
+            continue
+        from engine.flow import PosTerms
+        pt = PosTerms(b)
+        c = cfg(b)
+        term_at = lambda b_: pt.at(b_.idx, None).of_operand(b_.term.discr)
+        for bb, var in explicit_rejections(b):
+            n += 1
+            conds = [(gb, t, cond) for (gb, t, cond) in pat.branch_conditions(b, c, bb, term_at)
+                     if not (t[0] == "discr" and isinstance(t[1], tuple) and t[1] and t[1][0] == "try")]
+            why = None
+            for (gb, t, cond) in conds:
+                truth = cond == ("notin", (0,)) or (cond[0] == "is" and cond[1] == 1)
+                # (a) control byte without bit 7
+                if pat.has_arg(t, "status") and not pat.has_call(t, "read_"):
+                    try:
+                        tv = [pat.eval_cmp(t, lambda q, v=v: v if (q[0] == "arg" and q[2] == "status") else (_ for _ in ()).throw(pat.NotEvaluable(q))) == truth
+                              for v in range(256)]
+                        if tv == [v < 0x80 for v in range(256)]:
+                            why = "control byte < 0x80"
+                    except (pat.NotEvaluable, pat.Overflow):
+                        pass
+                # (b) properties byte >= 225, (c) lc + lp > 4
+                s_ = pat.cmp_sides(t)
+                if s_ and s_[2] == ("const", 225) and s_[0] == ("Ge" if truth else "Lt"):
+                    why = "properties byte >= 225"
+                if s_ and s_[2] == ("const", 4) and s_[0] == ("Gt" if truth else "Le") and pat.has_op(s_[1], ("Add",)) and pat.has_op(s_[1], ("Rem",)):
+                    why = "lc + lp > 4"
+            if why:
+                r.ok("guard", {"fn": short(b.name), "rejects": why})
+            else:
+                r.bad("%s|extra-rejection" % short(b.name).split("::")[-1], "a chunk is refused for a reason the format does not give (%s): cannot verify "
+                      "that no well-formed stream is refused" % ("; ".join(flow.show(t)[:50] for (_, t, _) in conds[-2:]) or "unconditional"),
+                      pat.where(b, bb), "unverifiable")
+    r.sites = n
+    r.need("explicit rejections of the chunk parser (found %d)" % n, n >= 1)
+    return r
+
+
 def rule_sizes(facts):
     r = report.RuleResult("C02.R2", "chunk size fields are decoded as the format defines them")
     p = pat.body_of(facts, "Lzma2Decoder::parse_lzma")
@@ -297,7 +372,7 @@ def run(ctx, t0):
     r14.rule = "C02.R4b"
     for f in r14.findings:
         f.rule = "C02.R4b"
-    rules = [rule_table(facts), rule_sizes(facts), rule_carry(facts), rule_target_order(facts), r14, rule_history(facts)]
+    rules = [rule_table(facts), rule_rejections(facts), rule_sizes(facts), rule_carry(facts), rule_target_order(facts), r14, rule_history(facts)]
     expl = ("Static, framing clauses only: the reset-class table is read off the switch on (status >> 5) & 3, size terms "
             "and endianness from the provenance of the fields, reset calls from control dependence on the flags, the "
             "order of the produced-length read relative to the dictionary reset, and the completeness of a state reset "
